@@ -22,7 +22,7 @@ import sys
 
 import pvl
 
-from .. import core, gen, dialects, iosim, e1
+from .. import core, gen, dialects, iosim, e1, chan
 from ..core import Property, RunOut, Violation
 
 FORMATS = ["PDS3", "ODL", "ISIS", "PVL", "JSON"]
@@ -64,7 +64,9 @@ class C20(Property):
             "some dialect, a label followed by binary bytes) and 1-5 tool "
             "invocations in one interpreter with the tools' module-level "
             "instances reloaded once at run start: pvl_validate.main with "
-            "one or many files in seeded order and 0-2 -v flags; "
+            "one or many files in seeded order and 0-2 -v flags, in 12% of "
+            "them with an in-flight fault (the token stream of one row's "
+            "shared parser raises at token k); "
             "pvl_translate.main for PDS3/ODL/ISIS/PVL/JSON with a path or "
             "simulated STDIN (seekable or pipe) as input and a path or "
             "simulated STDOUT as output.  Oracle: translate output equals "
@@ -97,7 +99,8 @@ class C20(Property):
                        "probe.translate-json", "probe.file-damaged",
                        "probe.file-value-loss", "probe.file-binary-tail",
                        "probe.file-not-encodable", "probe.second-invocation",
-                       "probe.translate-refused"]
+                       "probe.translate-refused", "probe.file-too-deep",
+                       "probe.validate-with-injected-fault"]
 
     # ---- files
     def make_files(self, rng, out):
@@ -106,6 +109,8 @@ class C20(Property):
         for i in range(n):
             kind = rng.choice(["plain", "plain", "corpus", "value-loss",
                                "damaged", "not-encodable", "binary-tail"])
+            if rng.random() < 0.04:
+                kind = "deep"
             stmts, toks, text, style = gen.render_doc(
                 rng, "default", max_stmts=rng.choice([1, 2, 4, 6]),
                 extended=rng.random() < 0.3)
@@ -146,6 +151,13 @@ class C20(Property):
                     "E = ()\n", "Z = 01:02:03.0000049\n"])
                 data = (extra + text).encode()
                 out.inc("probe.file-not-encodable")
+            elif kind == "deep":
+                # nested far deeper than any parser here can follow: every
+                # dialect's load fails with a non-PVL exception
+                d = rng.choice([400, 600])
+                data = ("DEEP = " + "(" * d + "1" + ")" * d +
+                        "\nEND\n").encode()
+                out.inc("probe.file-too-deep")
             elif kind == "binary-tail":
                 if "END" not in [t.kind for t in toks]:
                     data = data + b"END\n"
@@ -157,11 +169,14 @@ class C20(Property):
         return files
 
     # ---- expected verdicts of one file
-    def verdicts(self, text):
+    def verdicts(self, text, inject=None):
         v = {}
         for row in ROWS:
             cfg = ROWCFG[row]
-            o = dialects.load(cfg, text)
+            lexer_fn = None
+            if inject and inject["row"] == row:
+                lexer_fn = chan.make_lexer_fn(inject["plan"])
+            o = dialects.load(cfg, text, lexer_fn)
             if o.kind != "ok":
                 v[row] = (False, None)
                 continue
@@ -261,14 +276,27 @@ class C20(Property):
         return o, code[0]
 
     def do_validate(self, V, inv, paths, case, viol, out):
-        _, flags, names = inv
+        _, flags, names = inv[:3]
+        inject = inv[3] if len(inv) > 3 else None
         argv = list(flags) + [paths[n] for n in names]
+        saved_lexer = None
+        if inject:
+            # a fault in flight inside one row's load: that row's token
+            # stream raises; the tool must still report every file
+            par = V.dialects[inject["row"]]["parser"]
+            saved_lexer = (par, par.lexer)
+            par.lexer = chan.make_lexer_fn(inject["plan"])
+            if out is not None:
+                out.inc("fault.in-flight-abort-in-validate-row")
+                out.inc("probe.validate-with-injected-fault")
         buf = io.StringIO()
         sys.stdout = buf
         sys.stderr = io.StringIO()
         total = sum(len(case["files"][n]) // 2 for n in names)
         o, code = self.run_main(lambda: V.main(argv), 6 * total + 500)
         sys.stdout = sys.__stdout__
+        if saved_lexer:
+            saved_lexer[0].lexer = saved_lexer[1]
         many = len(names) > 1
         if out is not None:
             out.evals += 1
@@ -289,7 +317,8 @@ class C20(Property):
             if p not in rep:
                 viol("file-missing-from-report", "%s has no row" % n, "row")
                 continue
-            exp = self.verdicts(text_of(bytes.fromhex(case["files"][n])))
+            exp = self.verdicts(text_of(bytes.fromhex(case["files"][n])),
+                                inject)
             if out is not None:
                 out.evals += 10
             for row in ROWS:
@@ -420,7 +449,12 @@ class C20(Property):
                     k = rng.randint(1, len(names))
                     chosen = rng.sample(names, k)
                     flags = ["-v"] * rng.choice([0, 0, 1, 2])
-                    invs.append(["validate", flags, chosen])
+                    inv = ["validate", flags, chosen]
+                    if rng.random() < 0.12:
+                        inv.append({"row": rng.choice(ROWS), "plan": [
+                            {"kind": "abort", "at": rng.choice([0, 0, 1, 3])}
+                        ]})
+                    invs.append(inv)
                 else:
                     fmt = rng.choice(FORMATS)
                     n = rng.choice(names)
@@ -462,10 +496,13 @@ class C20(Property):
         if last[0] == "validate" and len(last[2]) > 1:
             for j in range(len(last[2])):
                 yield dict(case, invocations=invs[:-1] + [
-                    ["validate", last[1], last[2][:j] + last[2][j + 1:]]])
+                    ["validate", last[1], last[2][:j] + last[2][j + 1:]] +
+                    last[3:]])
         if last[0] == "validate" and last[1]:
             yield dict(case, invocations=invs[:-1] + [
-                ["validate", [], last[2]]])
+                ["validate", [], last[2]] + last[3:]])
+        if last[0] == "validate" and len(last) > 3:
+            yield dict(case, invocations=invs[:-1] + [last[:3]])
         used = set()
         for inv in invs:
             if inv[0] == "validate":
